@@ -39,3 +39,37 @@ Qed.
 (* a concrete pair shaped like Basic256Sha256 (block 16, tag 32) *)
 Example toy_sym_link_example : link (toy_sym_algo 16 32 7 9) (toy_sym_algo 16 32 9 7).
 Proof. apply toy_sym_link; lia. Qed.
+
+(* ---------------------------------------------------------------------------------------------- *)
+(* the toy RSA block primitive round-trips every block it accepts *)
+Ltac Zify.zify_post_hook ::= Z.div_mod_to_equations.
+
+Lemma toy_rsa_block ks k blk :
+  2 <= ks <= 65536 -> zlen blk <= ks - 2 ->
+  exists c, toy_rsa_enc1 ks k blk = Some c /\ zlen c = ks /\ toy_rsa_dec1 ks k c = Some blk.
+Proof.
+  intros Hks Hb. pose proof (zlen_nonneg blk) as Hb0. unfold toy_rsa_enc1.
+  replace (zlen blk >? ks - 2) with false by (symmetry; rewrite Z.gtb_ltb; apply Z.ltb_ge; lia).
+  eexists. split; [reflexivity|].
+  set (body := map (fun b => b8 (zb b + k)) blk).
+  set (fill := repeat (b8 238) (Z.to_nat (ks - 2 - zlen blk))).
+  assert (Hbody : zlen body = zlen blk) by (unfold body; apply zlen_map).
+  assert (Hfill : zlen fill = ks - 2 - zlen blk) by (unfold fill; rewrite zlen_repeat; lia).
+  assert (Hlen : zlen (body ++ fill ++ [b8 (zlen blk / 256); b8 (zlen blk)]) = ks).
+  { rewrite !zlen_app, Hbody, Hfill. change (zlen [b8 (zlen blk / 256); b8 (zlen blk)]) with 2. lia. }
+  split; [exact Hlen|].
+  unfold toy_rsa_dec1. rewrite Hlen, Z.eqb_refl. cbn [negb orb].
+  replace (ks <? 2) with false by (symmetry; apply Z.ltb_ge; lia).
+  assert (E1 : znth (ks - 2) (body ++ fill ++ [b8 (zlen blk / 256); b8 (zlen blk)]) = b8 (zlen blk / 256)).
+  { rewrite znth_app_r by lia. rewrite znth_app_r by lia. rewrite Hbody, Hfill.
+    replace (ks - 2 - zlen blk - (ks - 2 - zlen blk)) with 0 by lia. reflexivity. }
+  assert (E2 : znth (ks - 1) (body ++ fill ++ [b8 (zlen blk / 256); b8 (zlen blk)]) = b8 (zlen blk)).
+  { rewrite znth_app_r by lia. rewrite znth_app_r by lia. rewrite Hbody, Hfill.
+    replace (ks - 1 - zlen blk - (ks - 2 - zlen blk)) with 1 by lia. reflexivity. }
+  rewrite E1, E2, !zb_b8.
+  assert (Hn : 256 * (zlen blk / 256 mod 256) + zlen blk mod 256 = zlen blk).
+  { lia. }
+  rewrite Hn.
+  replace (zlen blk >? ks - 2) with false by (symmetry; rewrite Z.gtb_ltb; apply Z.ltb_ge; lia).
+  rewrite ztake_app_exact by exact Hbody. unfold body. rewrite map_shift_inv. reflexivity.
+Qed.
